@@ -341,6 +341,20 @@ func (g *Gen) c05Datagram(kind int, i int, reqWire, secret []byte, reqCode int, 
 			signReply(w, reqAuth, secret)
 			return w
 		default: // an authentic 4096-byte reply followed by bytes the read buffer cuts off
+			return g.c05Datagram(13, i, reqWire, secret, code, prev)
+		}
+	case 9: // replay of an earlier datagram
+		if len(prev) > 0 {
+			return append([]byte{}, prev[g.Intn(len(prev))]...)
+		}
+		return g.RandBytes(24)
+	case 10: // unknown reply code, correctly signed: carries a valid response authenticator
+		w := genuine()
+		w[0] = byte(g.Pick(0, 6, 13, 99, 255))
+		signReply(w, reqAuth, secret)
+		return w
+	case 13: // an authentic reply of exactly 4096 octets (the largest legal one), sometimes followed by excess bytes
+		{
 			as := []avp{g.marker(i)}
 			total := 20 + 6
 			for total < 4096 {
@@ -357,17 +371,11 @@ func (g *Gen) c05Datagram(kind int, i int, reqWire, secret []byte, reqCode int, 
 				total += 2 + l
 			}
 			w := replyDatagram(reqWire, secret, code, as)
-			return append(w, g.RandBytes(g.Pick(1, 7, 300))...)
+			return append(w, g.RandBytes(g.Pick(0, 0, 0, 1, 7, 300))...)
 		}
-	case 9: // replay of an earlier datagram
-		if len(prev) > 0 {
-			return append([]byte{}, prev[g.Intn(len(prev))]...)
-		}
-		return g.RandBytes(24)
-	case 10: // unknown reply code, correctly signed: carries a valid response authenticator
+	case 12: // authentic reply with exactly ONE octet of its authenticator altered (each position in turn)
 		w := genuine()
-		w[0] = byte(g.Pick(0, 6, 13, 99, 255))
-		signReply(w, reqAuth, secret)
+		w[4+(i+g.Intn(2)*g.Intn(16))%16] ^= byte(1 << uint(g.Intn(8)))
 		return w
 	default: // the request echoed back
 		return append([]byte{}, reqWire...)
@@ -418,6 +426,8 @@ func genC05(g *Gen, tier string, emit func(op string, args ...string)) {
 		for i := 0; i < L; i++ {
 			var d []byte
 			switch {
+			case i == genuineAt && g.Chance(1, 12): // the genuine reply is the largest legal one (4096 octets)
+				d = g.c05Datagram(13, i, wire, secret, reqCode, hist)
 			case i == genuineAt:
 				d = g.c05Datagram(0, i, wire, secret, reqCode, hist)
 			case g.Chance(1, 30): // a second authentic reply somewhere
@@ -425,7 +435,7 @@ func genC05(g *Gen, tier string, emit func(op string, args ...string)) {
 			case skip && g.Chance(1, 2): // with verification off most forgeries would end the call at once
 				d = g.c05Datagram(g.Pick(4, 6, 7, 7, 8, 9), i, wire, secret, reqCode, hist)
 			default:
-				d = g.c05Datagram(1+g.Intn(11), i, wire, secret, reqCode, hist)
+				d = g.c05Datagram(1+g.Intn(13), i, wire, secret, reqCode, hist)
 			}
 			hist = append(hist, d)
 		}
